@@ -11,6 +11,7 @@ Names contain no white space and are never "-".
 -/
 import TeraModel.Model.Registry
 import TeraModel.Model.RenderSkel
+import TeraModel.Model.FinalizeRefs
 open Tera.Reg
 
 namespace RegWire
@@ -183,6 +184,38 @@ def handleRender (rest : List String) : String :=
         match renderTpl env ((lookupParents d.parents r).getD []) fuel r with
         | .ok out => "ok " ++ out
         | .error e => showRErr e
+  | _ => "bad-request"
+
+/-! summaries with call tables (Model/FinalizeRefs.lean):
+  <reg>  ::= R <nf> <filter>*nf <nt> <test>*nt <ng> <function>*ng
+  <tplr> ::= <tpl> <nfc> <filter call>*nfc <ntc> <test call>*ntc <nfn> <function call>*nfn -/
+
+def pReg : OptionT P Registered := do
+  pExpect "R"
+  let f ← pList pTok
+  let t ← pList pTok
+  let g ← pList pTok
+  pure { filters := f, tests := t, functions := g }
+
+def pTplR : OptionT P TplR := do
+  let base ← pTpl
+  let f ← pList pTok
+  let t ← pList pTok
+  let g ← pList pTok
+  pure { base := base, filterCalls := f, testCalls := t, functionCalls := g }
+
+/-- `finr <perm2> <perm3> <reg> P <n> <prefix>*n T <k> <tplr>*k` -/
+def handleFinR (rest : List String) : String :=
+  match (do
+      let a ← pNat; let b ← pNat; let reg ← pReg
+      pExpect "P"; let ps ← pList pTok
+      pExpect "T"; let ts ← pList pTplR
+      pure (a, b, reg, ps, ts) : OptionT P _).run rest with
+  | (some (p2, p3, reg, prefixes, S), []) =>
+    let ks := S.map (·.base.name)
+    match deriveR reg prefixes S (order p2 ks) (order p3 ks) with
+    | .ok d => "ok " ++ showDerived d
+    | .error e => showErr e
   | _ => "bad-request"
 
 end RegWire
